@@ -99,7 +99,8 @@ func c16obs(r *rand.Rand, g *keyGen, t *track, full bool, ops *[][]string) {
 	var tmp [][]string
 	obs(r, g, t, full, &tmp)
 	for _, op := range tmp {
-		if op[0] != "audit" {
+		// davail: discovery over legacy root keys is not the model's (Discover.v is the new format)
+		if op[0] != "audit" && op[0] != "davail" {
 			*ops = append(*ops, op)
 		}
 	}
